@@ -5,6 +5,14 @@ HERE = os.path.dirname(os.path.dirname(os.path.abspath(__file__)))
 ALL = ["C%02d" % i for i in range(1, 21)]
 
 CHECKS = {
+ "C06": dict(category="exploration", design_ref="DESIGN.md §4 C06", engine="in-proc",
+   technique="runtime monitoring: parser.ParseString run in child processes over corpus-derived, truncated, mutated, generated and random inputs; per-input recover, per-thread CPU-time budget (soft, then solo re-run with a hard budget), ParseError position range check; reflective position oracle (bounds, order, line/col vs index, source prefix, name ranges) on every input the parse+generate+gofmt pipeline accepts",
+   text="exploration: ~0.44M (quick) / ~5M (thorough) inputs: every .templ file and test input of the repository found at run time, every truncation (stride rule), token-dictionary mutations, CRLF conversion, multi-byte insertion before expressions, random bytes and token soups, truncations of generated programs; no panic, crash, over-budget parse, out-of-input error position or unfaithful range among them; ~140k expressions and ~170k ranges position-checked per quick run.",
+   note="Termination is judged by CPU time of the parsing thread (soft 5 CPU-s, then solo re-run at 60 CPU-s; between = inconclusive); the loop-progress hook H1 of the design was not added, so a livelock is found only through the budget. Position-less errors (ErrLegacyFileFormat) are not demanded. The sweep stops after 2 over-budget or 4 crashing inputs."),
+ "C07": dict(category="exploration", design_ref="DESIGN.md §4 C07", engine="in-proc",
+   technique="runtime monitoring: generator.Generate on corpus files, mutants and seeded every-slot programs; the oracle walks every rune-start byte of every Go expression through TargetPositionFromSource / SourcePositionFromTarget and compares bytes, adjacency, round trip, end-of-line positions, coverage, stray map entries and symbol ranges (go/parser on the generated text)",
+   text="exploration: ~12k accepted programs per quick run (~100k thorough) covering all 27 observed syntactic slots with multi-line and multi-byte expressions and multi-byte text before expressions; ~8.6M positions, 0.5M end-of-line positions and 41k symbol ranges checked per quick run.",
+   note="Coordinates are 0-based line and byte column at rune starts (mid-rune bytes are counted, not required); files without a package clause and invalid UTF-8 are skipped and counted; a Go-block symbol range is demanded only when the block contains a declaration and does not end in a // line. Two genuine defects fixed (class attribute polluting line 0; symbol range lost when two symbols start on one line)."),
  "C04": dict(category="exploration", design_ref="DESIGN.md §4 C04", engine="in-proc",
    technique="runtime monitoring: bulk in-process monitor of templ.URL against an independent WHATWG scheme extractor; compiled href/action templates rendered with hostile values and decided with an HTML5 tokenizer; compile probes (real generator + go build) for the SafeURL typing clause",
    text="exploration with a bounded-exhaustive sub-space: every sequence of <=4 (quick) / <=5 (thorough) tokens over a 32-token adversarial alphabet and every string of <=6 / <=7 symbols over a 14-symbol alphabet, 142 XSS vectors with mutations, random long strings (9.5M sanitiser calls quick); 94k end-to-end renders through <a href>, <form action> (also inside conditional attributes); 22 compile probes for the typing clause (lower, upper and mixed case element/attribute names).",
